@@ -74,6 +74,8 @@ def module_facts(model):
             qw = fp.unwrap_param(m.qweight)
             facts[n + ".qweight"] = fp.tensor_fp(qw)
             facts[n + ".frozen"] = str(m.frozen)
+            if m.frozen:  # a reloaded frozen weight is as frozen as the saved one (no gradient: C11)
+                facts[n + ".weight_requires_grad"] = str(bool(m.weight.requires_grad))
         if getattr(m, "bias", None) is not None:
             facts[n + ".bias"] = fp.tensor_fp(m.bias)
     for n, p in model.named_parameters():
